@@ -421,6 +421,28 @@ func runC16(r *mc.Run) {
 					o.TdQuoteBodyOptions.Rtmrs = [][]byte{regs(0), regs(1), regs(2), regs(3)}
 					return o
 				}},
+				{"anymrtd-wrong-length-entries-among-good-ones", func() *validate.Options {
+					o := &validate.Options{}
+					mr := append([]byte(nil), raw0[48+136:48+184]...)
+					o.TdQuoteBodyOptions.AnyMrTd = [][]byte{world.Fill("c16-a", 48), world.Fill("c16-short", 32), world.Fill("c16-c", 48), mr, world.Fill("c16-long", 64), world.Fill("c16-d", 48)}
+					return o
+				}},
+				{"anymrtd-wrong-length-entry-first", func() *validate.Options {
+					o := &validate.Options{}
+					o.TdQuoteBodyOptions.AnyMrTd = [][]byte{world.Fill("c16-short", 47), world.Fill("c16-c", 48), append([]byte(nil), raw0[48+136:48+184]...), {}}
+					return o
+				}},
+				{"rtmrs-wrong-length-entries", func() *validate.Options {
+					o := &validate.Options{}
+					o.TdQuoteBodyOptions.Rtmrs = [][]byte{regs(0)[:47], regs(1), append(regs(2), 0), regs(3)}
+					return o
+				}},
+				{"rtmrs-three-and-five-entries", func() *validate.Options {
+					o := &validate.Options{}
+					o.TdQuoteBodyOptions.Rtmrs = [][]byte{regs(0), regs(1), regs(2), regs(3), regs(0)}
+					o.TdQuoteBodyOptions.AnyMrTd = [][]byte{nil, nil, world.Fill("c16-e", 48)}
+					return o
+				}},
 				{"everything-empty-non-nil", func() *validate.Options {
 					o := &validate.Options{}
 					for _, f := range optFields {
